@@ -39,7 +39,17 @@ def main(argv=None):
         with open(args.replay) as f:
             rep = json.load(f)
         res = core.Result(prop, args.tier, seed)
-        mod.replay(res, rep)
+        rr = (rep.get("replay") or {}).get("_rerun") if isinstance(rep.get("replay"), dict) else None
+        if getattr(mod, "REPLAY_BY_RERUN", False) and rr:
+            # deterministic workloads: re-run the shard that produced the witness
+            if rr.get("tz"):
+                os.environ["TZ"] = rr["tz"]
+                time.tzset()
+            res = core.Result(prop, rr["tier"], rr["seed"])
+            res.shard, res.nshards = rr["shard"], rr["nshards"]
+            mod.run(res, rr["tier"], rr["seed"], rr["shard"], rr["nshards"])
+        else:
+            mod.replay(res, rep)
         for v in res.violations:
             print("REPRODUCED", json.dumps(v.to_json(), default=repr)[:3000])
         print("violations reproduced:", len(res.violations))
@@ -53,6 +63,7 @@ def main(argv=None):
             os.environ["TZ"] = zone
             time.tzset()
         res = core.Result(prop, args.tier, seed)
+        res.shard, res.nshards = args.shard, args.nshards
         try:
             mod.run(res, args.tier, seed, args.shard, args.nshards)
         except Exception:  # harness failure is never a verdict
@@ -72,6 +83,7 @@ def main(argv=None):
         res = core.run_sharded(prop, args.tier, seed, nshards, timeout)
     else:
         res = core.Result(prop, args.tier, seed)
+        res.shard, res.nshards = 0, 1
         try:
             mod.run(res, args.tier, seed, 0, 1)
         except Exception:
